@@ -402,6 +402,11 @@ def monitor_case(ops, obs, which):
                             V("C03", "offset-align", f"alloc<{A},{S}> offset {off}", i)
                         if o.get("am", "0") != "0":
                             V("C03", "addr-align", f"alloc<{A},{S}>: address misaligned by {o.get('am')} (within the alignment the arena guarantees)", i)
+                # C16: the first allocation starts at the first suitably aligned offset at or after data_offset
+                if pal == doff and not rewound and need > 0 and cap > 0 and not pfl:
+                    exp_off = doff if op.startswith("alloc_bytes") else (doff + A - 1) // A * A
+                    if off != exp_off:
+                        V("C16", "first-alloc", f"{ops[i].strip()} on the untouched arena (data_offset {doff}) starts at {off}, expected {exp_off}", i)
                 if need == 0 or cap == 0 and bcap == 0:
                     if (off, cap, boff, bcap) != (0, 0, 0, 0) and need == 0:
                         V("C01", "zero-size", f"zero-size request occupies {(off, cap, boff, bcap)}", i)
@@ -537,6 +542,7 @@ def monitor_case(ops, obs, which):
             W = {"u8":1,"i8":1,"u16":2,"i16":2,"u32":4,"i32":4,"u64":8,"i64":8,"usize":8,"isize":8,"u128":16,"i128":16}
             if o.get("oo") == "0":
                 V("C14", "outside-write", f"{ops[i].strip()} changed bytes outside the buffer [{boff_},{boff_+bcap_})", i)
+                V("C01", "handle-writes-outside", f"{ops[i].strip()} through the handle [{boff_},{boff_+bcap_}) changed bytes outside it", i)
             if r == "InsufficientBuffer":
                 if nlen != blen:
                     V("C14", "failed-put-changes-len", f"{ops[i].strip()} failed but len {blen} -> {nlen}", i)
@@ -625,6 +631,8 @@ def monitor_case(ops, obs, which):
             if r == "ok" and "um" in o and o["um"] != "1":
                 V("C13", "unmount-count", f"close released the backing memory {o['um']} times (expected exactly once)", i)
         if op == "wres": fstate["wres"] = True
+        if op == "truncate" and (r.startswith("panic") or r.startswith("sig")):
+            V("C18", "truncate-panics", f"{ops[i].strip()} -> {r}", i)
         if op == "remove_on_drop" and r == "ok": fstate["remove"] = (t[1] == "1")
         # ---- C18 truncate
         if op == "truncate" and r == "ok" and fstate.get("ro_state") and not fstate["closed"]:
